@@ -902,6 +902,9 @@ func (g *FnGen) doUnOp(x *ssa.UnOp) {
 	case token.XOR:
 		g.defVal(x, "(bvnot "+v.T+")")
 	case token.MUL:
+		if v.Place != nil && v.Place.Base != "" && v.Place.Idx == "" {
+			g.checkGuardedRead(x, v.Place.Key, v.Place.Base, x.Pos())
+		}
 		if v.Place == nil {
 			g.oblige("nil", g.siteNames[x], g.curGuard, not("(= "+v.T+" nil)"), "load through nil pointer", x.Pos())
 		}
@@ -1206,19 +1209,43 @@ func mapOwner(m ssa.Value) (ssa.Value, string) {
 	return nil, ""
 }
 
-// lockHeldFor: a ghost lock-set tracked through sync.Mutex Lock/Unlock contracts.
+// lockHeldFor: the owner's mutex (the first sync.Mutex / sync.RWMutex field of the struct type) is
+// held, according to the ghost lock set maintained by the Lock/Unlock contracts.
 func (g *FnGen) lockHeldFor(tn, base string) string {
+	if g.root().C != nil && g.root().C.OnceGuarded {
+		return "true"
+	}
 	if _, ok := g.S.GhostFields["held"]; !ok {
 		return "false"
 	}
-	g.ensureGhostField("held")
-	// the lock protecting an object is the mutex field registered for the type, if any
-	mf, ok := g.S.GhostVars["lockfield:"+tn]
-	_ = mf
+	t := lookupNamedType(g.P, tn)
+	if t == nil {
+		return "false"
+	}
+	st, ok := t.Underlying().(*types.Struct)
 	if !ok {
 		return "false"
 	}
+	for i := 0; i < st.NumFields(); i++ {
+		ft := typeName(st.Field(i).Type())
+		if ft == "sync.Mutex" || ft == "sync.RWMutex" {
+			key, _ := g.D.fieldKey(t, i)
+			addr := g.opaqueAddr(&Place{Key: key, Base: base})
+			hk := g.ensureGhostField("held")
+			return sel(g.D.get(g.st, hk), addr)
+		}
+	}
 	return "false"
+}
+
+// checkGuardedRead: a field declared "guarded" is read only while the owner's mutex is held (or on
+// an object this call allocated).
+func (g *FnGen) checkGuardedRead(ins ssa.Instruction, key, base string, pos token.Pos) {
+	if !g.S.Guarded[key] {
+		return
+	}
+	tn := key[2:strings.LastIndex(key, ".")]
+	g.oblige("shared-write", g.siteNames[ins]+":read:"+strings.TrimPrefix(key, "F:"), g.curGuard, or(g.isFresh(base), g.lockHeldFor(tn, base)), "guarded field is read only under the owner's lock", pos)
 }
 
 type autoInv struct {
